@@ -1,7 +1,7 @@
 (* C12 - middlewares and error handlers run once per request, in the declared order.
    Statements only; proofs in Lemmas/DispatchL.v. *)
-From Coq Require Import ZArith List String Ascii Bool.
-From PJ Require Import Base.Json Base.Res Model.Msg Model.Bind Model.Dispatch Lemmas.DispatchL.
+From Coq Require Import ZArith List String Ascii Bool Permutation.
+From PJ Require Import Base.Json Base.Res Model.Msg Model.Bind Model.Dispatch Lemmas.DispatchL Lemmas.EhOrderL.
 Import ListNotations.
 Open Scope string_scope. Open Scope list_scope.
 
@@ -35,6 +35,11 @@ Theorem C12_error_handlers_fold : forall cfg r ctx name e,
   Some (RError (r_id r) (fold_left (fun acc h => h r ctx acc)
                                    (get_eh None (c_ehs cfg) ++ get_eh (Some (e_code e)) (c_ehs cfg)) e)).
 Proof. exact error_handlers_fold. Qed.
+(* the table is a mapping: the order its keys are WRITTEN in does not matter - the generic handlers still run first *)
+Theorem C12_table_order : forall cfg t' r ctx,
+  NoDup (map fst (c_ehs cfg)) -> Permutation (c_ehs cfg) t' ->
+  handle_request (with_ehs cfg t') r ctx = handle_request cfg r ctx.
+Proof. exact handle_request_table_order. Qed.
 Theorem C12_error_handler_log : forall key hs r ctx i e,
   snd (run_ehs key i hs r ctx e)
   = map (fun ie => EvEh key (fst ie) (snd ie)) (combine (seq i (List.length hs)) (eh_inputs hs r ctx e)).
